@@ -24,7 +24,8 @@ import (
 // nil.  Only the report stands between the unanswered cases and a successful run.
 //
 // in   = {marks (per case u|f|k), client (script: "req" read one request | "ans <m> <kind>" answer
-//        case m with pass|mismatch|error|neither | "garbage" | "exit <code>"), isRef}
+//        case m with pass|mismatch|error|neither|error:<key> (a client-reported error whose message is
+//        c04Msgs[key]: empty, blank, many lines, format verbs, long …) | "garbage" | "exit <code>"), isRef}
 // impl = {ok (report && wait == nil), report, wait ("" | err | hang), the printed totals, FAILED /
 //        INFO names, rets (what sendRequest returned per case), cbs}
 
@@ -80,13 +81,21 @@ func c04InScript(n int, script []string) ([]cc.VerifC11InAct, bool) {
 			if err != nil || m < 0 || m >= n || m >= read || answered[m] {
 				return nil, false
 			}
-			switch f[2] {
-			case "pass", "mismatch", "error", "neither":
+			kind := f[2]
+			switch {
+			case kind == "pass", kind == "mismatch", kind == "error", kind == "neither":
+			case strings.HasPrefix(kind, "error:") && len(kind) == 7:
+				// a client-reported error with the message c04Msgs[key]
+				msg, ok := c04Msgs[kind[6]]
+				if !ok {
+					return nil, false
+				}
+				kind = "error:" + msg
 			default:
 				return nil, false
 			}
 			answered[m] = true
-			acts = append(acts, cc.VerifC11InAct{K: "ans", M: m, Kind: f[2]})
+			acts = append(acts, cc.VerifC11InAct{K: "ans", M: m, Kind: kind})
 		case f[0] == "garbage" && len(f) == 1:
 			ended = true
 			acts = append(acts, cc.VerifC11InAct{K: "garbage"})
@@ -189,7 +198,10 @@ func c04InGen(c *gen.Ctx) {
 					if sub&(1<<i) != 0 {
 						kind := "pass"
 						if ms[i] == "f" || r.Chance(1, 4) {
-							kind = gen.Pick(r, []string{"mismatch", "error", "pass"})
+							kind = gen.Pick(r, []string{"mismatch", "error", "pass", "error:"})
+						}
+						if kind == "error:" {
+							kind += string(c04MsgKeys[r.Intn(len(c04MsgKeys))])
 						}
 						script = append(script, fmt.Sprintf("ans %d %s", i, kind))
 					}
@@ -200,6 +212,15 @@ func c04InGen(c *gen.Ctx) {
 				ins = append(ins, c04InIn{Marks: ms, Client: script, IsRef: r.Bool()})
 				c.E.Count("inrun:all-read-clean-end")
 			}
+		}
+	}
+	// what the client SAYS when it reports an error never changes what happened: every message of the
+	// pool on an unmarked case (the run must fail and name it) and on a known-failing / known-flaky
+	// one (an expected failure: the run must succeed)
+	for _, k := range c04MsgKeys {
+		for _, m := range marks {
+			ins = append(ins, c04InIn{Marks: []string{m, "u"}, Client: []string{"req", "ans 0 error:" + string(k), "req", "ans 1 pass"}, IsRef: r.Bool()})
+			c.E.Count("inrun:client-error-message")
 		}
 	}
 	nRand := 80
@@ -228,7 +249,11 @@ func c04InGen(c *gen.Ctx) {
 				j := r.Intn(len(pendingAns))
 				m := pendingAns[j]
 				pendingAns = append(pendingAns[:j], pendingAns[j+1:]...)
-				script = append(script, fmt.Sprintf("ans %d %s", m, gen.Pick(r, []string{"pass", "pass", "pass", "mismatch", "error", "neither"})))
+				kind := gen.Pick(r, []string{"pass", "pass", "pass", "mismatch", "error", "neither", "error:", "error:"})
+				if kind == "error:" {
+					kind += string(c04MsgKeys[r.Intn(len(c04MsgKeys))])
+				}
+				script = append(script, fmt.Sprintf("ans %d %s", m, kind))
 			}
 		}
 		switch r.Intn(6) {
